@@ -7,3 +7,5 @@ for P in "$@"; do
   ( cd /verif && ./check $P > $D/check_$P.txt 2>&1; echo "check $P exit=$?" | tee -a $D/check_$P.txt; grep -E "VIOLATION|KNOWN" $D/check_$P.txt )
 done
 cd /repo && git checkout -- . && git status --short | head -3
+# evidence written while the change was applied describes the changed tree: put the committed evidence back
+git -C /verif checkout -- evidence 2>/dev/null
